@@ -309,7 +309,7 @@ impl Check for C05 {
     type Case = TraceCase;
     const ID: &'static str = "C05";
     fn runs(t: Tier) -> u64 {
-        t.pick(30_000, 2_000_000)
+        t.pick(200_000, 6_000_000)
     }
     fn generate(rng: &mut Rng, tier: Tier, idx: u64) -> TraceCase {
         gen_trace_case(rng, tier, idx % 4 == 3)
@@ -433,7 +433,7 @@ impl Check for C07 {
     type Case = TraceCase;
     const ID: &'static str = "C07";
     fn runs(t: Tier) -> u64 {
-        t.pick(30_000, 2_000_000)
+        t.pick(200_000, 6_000_000)
     }
     fn generate(rng: &mut Rng, tier: Tier, idx: u64) -> TraceCase {
         gen_trace_case(rng, tier, idx % 2 == 1)
@@ -500,7 +500,7 @@ impl Check for C08 {
     type Case = CleanCase;
     const ID: &'static str = "C08";
     fn runs(t: Tier) -> u64 {
-        t.pick(30_000, 2_000_000)
+        t.pick(200_000, 6_000_000)
     }
     fn generate(rng: &mut Rng, _tier: Tier, _idx: u64) -> CleanCase {
         CleanCase { world: gen_clean_world(rng, 4) }
